@@ -5,7 +5,7 @@ import re
 
 import numpy as np
 
-from .. import build, cppdrv, gen, monitors, oracle as O
+from .. import build, cppdrv, expr as E, gen, monitors, oracle as O
 from . import common as K
 from .c02 import compare_outputs
 
@@ -36,7 +36,7 @@ N_POINTS = 6
 def plan(tier, seed):
     units = [{"uid": f"cpp{i}", "kind": "cpp", "i": i} for i in range(N[tier]["cpp"])]
     units += [{"uid": f"probe{i}", "kind": "probe", "i": i} for i in range(4 if tier == "quick" else 40)]
-    units += [{"uid": "absprobe", "kind": "absprobe", "i": 0}]
+    units += [{"uid": "absprobe", "kind": "absprobe", "i": 0}, {"uid": "offsetprobe", "kind": "offsetprobe", "i": 0}]
     # value-only programs with angle-wrap idioms (asin(sin u) ...), CSE on vs off vs oracle
     units += [{"uid": f"wrap{i}", "kind": "wrap", "i": i, "wraps": True} for i in range(16 if tier == "quick" else 600)]
     units += [{"uid": f"py{i}", "kind": "py", "i": i} for i in range(N[tier]["py"])]
@@ -364,9 +364,58 @@ def _cpp(R, rng, ctx, i):
             eb.close()
 
 
+def run_offset_probe(unit, ctx):
+    """Differences to large offsets (vf/probes.py): values, increments and Jacobians with CSE on and off
+    against the exact value; the tolerance is absolute 1e-6 on quantities of size O(1) - a rewrite that
+    multiplies the differences out is wrong by O(1) there."""
+    from .. import probes
+
+    R = K.Result()
+    defn = probes.offset_witness_defn()
+    orc = O.Oracle(defn)
+    names = sorted(defn["state"])
+    rd = sorted(defn["sensors"]["beacon"])
+    for cse in (True, False):
+        try:
+            ekf = build.Built(defn).py_ekf(common_subexpression_elimination=cse, innovation_filtering=None)
+        except Exception as e:  # noqa: BLE001
+            R.add([K.V(K.exc_key("compile_ekf", e), f"compile_ekf raised on the offset witness (cse={cse}): {K.exc_text(e)}",
+                       defn=defn, traceback=K.tb_text(e))])
+            continue
+        for pt in probes.offset_witness_points():
+            env = orc.env(pt)
+            st = ekf.State(x=pt["x"], y=pt["y"])
+            nxt = monitors.vec_dict(ekf._state_model.model(pt["dt"], st))
+            h = ekf.sensor_models["beacon"].model(st).data
+            H = np.asarray(ekf.sensor_jacobian("beacon", st), dtype=float)
+            G = np.asarray(ekf.process_jacobian(pt["dt"], st, ekf.Control()), dtype=float)
+            ref_f, ref_h = orc.model(env), orc.sensor("beacon", env)
+            ref_H, ref_G = orc.sensor_jacobian("beacon", env), orc.process_jacobian(env)
+            R.evals += 1
+            obs = []
+            for n in names:
+                obs.append((f"model increment[{n}]", nxt[n] - pt[n], float(ref_f[n][0] - E.mpf(pt[n]))))
+            lay_r = [str(q) for q in ekf.sensor_models["beacon"].readings]
+            for i, r in enumerate(lay_r):
+                obs.append((f"sensor[{r}]", float(h[i, 0]), float(ref_h[r][0])))
+                for j, c in enumerate(names):
+                    obs.append((f"sensor_jacobian[{r},{c}]", float(H[i, j]), float(ref_H[(r, c)][0])))
+            for i, r in enumerate(names):
+                for j, c in enumerate(names):
+                    obs.append((f"process_jacobian[{r},{c}]", float(G[i, j]), float(ref_G[(r, c)][0])))
+            for what, got, want in obs:
+                R.stats.inc("offset_probe_entries_compared")
+                if not abs(got - want) <= 1e-6 * max(1.0, abs(want)):
+                    R.add([K.V("offset-differences:value", f"cse={cse}: {what} = {got!r}, exact {want!r} (differences to 1e8-sized offsets)",
+                               defn=defn, point=pt, cse=cse)])
+    return R.out()
+
+
 def run_unit(unit, ctx):
     R = K.Result()
     rng = K.unit_rng(ID, ctx["seed"], unit)
+    if unit["kind"] == "offsetprobe":
+        return run_offset_probe(unit, ctx)
     if unit["kind"] == "absprobe":
         # CSE on and off must agree: for Abs() of a symbol without the real assumption one is silently wrong
         # and the other refuses to compile (known finding jacobian:abs-of-unassumed-symbol)
